@@ -16,6 +16,8 @@ import (
 	sdk "github.com/cosmos/cosmos-sdk/types"
 	authtypes "github.com/cosmos/cosmos-sdk/x/auth/types"
 
+	"github.com/ethereum/go-ethereum/crypto"
+
 	mhub2 "github.com/MinterTeam/mhub2/module/x/mhub2"
 	"github.com/MinterTeam/mhub2/module/x/mhub2/types"
 	"github.com/MinterTeam/mhub2/module/x/oracle"
@@ -402,6 +404,30 @@ func (e *Env) Exec(line string) string {
 			}
 			return fmt.Sprintf("lastnonce %d", r.EventNonce)
 		})
+	case "ckpt_set":
+		return e.pure(func() string {
+			tx := types.SignerSetTx{Nonce: u(w[2]), Signers: parseSigners(w[3])}
+			return hex.EncodeToString(tx.GetCheckpoint([]byte(w[1])))
+		})
+	case "ckpt_batch":
+		return e.pure(func() string {
+			b := types.BatchTx{BatchNonce: u(w[2]), Timeout: u(w[3]), ExternalTokenId: w[4]}
+			if w[5] != "-" {
+				for _, it := range strings.Split(w[5], ";") {
+					p := strings.Split(it, ":")
+					a, _ := new(big.Int).SetString(p[0], 10)
+					f, _ := new(big.Int).SetString(p[2], 10)
+					b.Transactions = append(b.Transactions, &types.SendToExternal{ExternalRecipient: p[1],
+						Token: types.ExternalToken{Amount: sdk.NewIntFromBigInt(a)}, Fee: types.ExternalToken{Amount: sdk.NewIntFromBigInt(f)}})
+				}
+			}
+			return hex.EncodeToString(b.GetCheckpoint([]byte(w[1])))
+		})
+	case "ethmsg":
+		return e.pure(func() string {
+			d, _ := hex.DecodeString(w[1])
+			return hex.EncodeToString(crypto.Keccak256(append([]byte("\x19Ethereum Signed Message:\n32"), d...)))
+		})
 	case "oprice", "oholders":
 		epoch := u(w[2])
 		return e.runTx(func(ctx sdk.Context) (string, error) {
@@ -475,6 +501,16 @@ func (e *Env) DumpOracle() string {
 	}
 	return fmt.Sprintf("oracle epoch=%d prices=%s holders=%s pvotes=%s hvotes=%s", ep, strings.Join(ps, ","), strings.Join(hs, ","),
 		votes(&oracletypes.MsgPriceClaim{Epoch: ep}), votes(&oracletypes.MsgHoldersClaim{Epoch: ep}))
+}
+
+func (e *Env) pure(f func() string) (res string) {
+	defer func() {
+		if r := recover(); r != nil {
+			e.lastPanic = fmt.Sprint(r)
+			res = "panic"
+		}
+	}()
+	return f()
 }
 
 func (e *Env) query(f func(ctx context.Context) string) (res string) {
